@@ -82,6 +82,11 @@ func (c *Ctx) localEffects(f *ssa.Function) []WriteEffect {
 					out = append(out, WriteEffect{f, in, "copy", cc.Args[0]})
 				case "clear":
 					out = append(out, WriteEffect{f, in, "clear", cc.Args[0]})
+				case "append":
+					// append writes into the backing array of its first argument whenever the capacity suffices
+					if k, isK := cc.Args[0].(*ssa.Const); !(isK && k.Value == nil) && len(cc.Args) > 1 {
+						out = append(out, WriteEffect{f, in, "append (writes the backing array within capacity)", cc.Args[0]})
+					}
 				}
 				return
 			}
